@@ -384,7 +384,7 @@ impl Gen {
         let small_repr = matches!(repr, Repr::Int(Prim::U8) | Repr::Int(Prim::I8));
         let n = match self.rng.below(20) {
             0 => 1,
-            1 if !small_repr => 257, // forces 2-byte discriminant when no int repr
+            1 if !small_repr => *self.rng.pick(&[255usize, 256, 257]), // around the 1-byte / 2-byte discriminant boundary when there is no int repr
             _ => self.rng.range(2, 9),
         };
         let explicit = n < 100 && self.rng.chance(2, 5);
@@ -469,6 +469,16 @@ impl Gen {
         // derive conjures variants by writing the variant *index* as tag in a const context, so
         // a definition whose discriminants differ from the indices does not compile (it is
         // outside the set of definitions the derive accepts).
+        // sometimes a variant that only exists from a later version on, declared before older ones
+        // (the wire discriminant stays the declaration index at every version)
+        if self.uni.version >= 1 && variants.len() >= 2 && self.rng.chance(1, 5) {
+            let i = self.rng.range(1, variants.len() - 1).saturating_sub(if self.rng.chance(1, 2) { 1 } else { 0 }).max(if variants.len() > 2 { 0 } else { 1 });
+            if i < variants.len() - 1 || variants.len() == 2 {
+                let i = i.min(variants.len() - 1).max(1).min(variants.len() - 1);
+                variants[i].vfrom = self.rng.range(1, self.uni.version as usize) as u32;
+                self.stat("enum.versioned_variant_not_last");
+            }
+        }
         let mixed = variants.iter().any(|v| v.shape == Shape::Unit) && variants.iter().any(|v| v.shape != Shape::Unit);
         if mixed {
             self.stat("data_enum.mixed_unit_and_data");
@@ -760,6 +770,43 @@ fn fixed_defs(g: &mut Gen) {
             recursive: false,
         });
     }
+    // int-repr enum whose first data variant is padding-free while a later one has a gap behind the tag
+    g.push(Def {
+        name: format!("{}Fix14", g.prefix),
+        repr: Repr::Int(Prim::U16),
+        kind: DefKind::Enum {
+            variants: vec![
+                VariantDef { name: "V0".into(), shape: Shape::Tuple, fields: vec![f("0", p(Prim::U16)), f("1", p(Prim::U32))], discr: None, vfrom: 0, vto: None },
+                VariantDef { name: "V1".into(), shape: Shape::Tuple, fields: vec![f("0", p(Prim::U32))], discr: None, vfrom: 0, vto: None },
+            ],
+        },
+        params: 0,
+        recursive: false,
+    });
+    // field-less enums without an integer repr around the one-byte discriminant limit
+    for (k, n) in [(15, 255usize), (16, 256)] {
+        g.push(Def {
+            name: format!("{}Fix{}", g.prefix, k),
+            repr: Repr::Rust,
+            kind: DefKind::Enum { variants: (0..n).map(|i| VariantDef { name: format!("V{}", i), shape: Shape::Unit, fields: vec![], discr: None, vfrom: 0, vto: None }).collect() },
+            params: 0,
+            recursive: false,
+        });
+    }
+    // enum with a later-version variant declared between two older ones
+    g.push(Def {
+        name: format!("{}Fix17", g.prefix),
+        repr: Repr::Rust,
+        kind: DefKind::Enum {
+            variants: vec![
+                VariantDef { name: "V0".into(), shape: Shape::Tuple, fields: vec![f("0", p(Prim::U32))], discr: None, vfrom: 0, vto: None },
+                VariantDef { name: "V1".into(), shape: Shape::Named, fields: vec![f("f0", p(Prim::U16))], discr: None, vfrom: 1, vto: None },
+                VariantDef { name: "V2".into(), shape: Shape::Tuple, fields: vec![f("0", p(Prim::U8)), f("1", p(Prim::U8))], discr: None, vfrom: 0, vto: None },
+            ],
+        },
+        params: 0,
+        recursive: false,
+    });
     // repr(Rust) struct of one-byte fields, some with a niche (the compiler may reorder them)
     g.push(Def {
         name: format!("{}Fix11", g.prefix),
